@@ -13,7 +13,7 @@
 //! ASSUME: std::alloc::alloc / alloc::alloc::dealloc_nonnull replaced by logging stubs (the
 //!   dealloc stub asserts size and align against the log); CBMC objects are maximally aligned, so
 //!   alignment is checked as requested-align >= needed and (payload offset % align) == 0.
-//! OUTSIDE: shapes not in the matrix; lengths above 3 end to end (covered by layout-only only).
+//! OUTSIDE: dyn handles over payloads aligned above 8 (Kani mis-places a dyn tail there; C11 header); shapes not in the matrix; lengths above 3 end to end (covered by layout-only only).
 use crate::ghost::*;
 use crate::kinds::*;
 use core::mem::{align_of, forget, size_of, ManuallyDrop, MaybeUninit};
@@ -71,9 +71,14 @@ fn sized_a<T: Copy + Tr + 'static>(v: T) {
     // Arc::new -> raw cast to dyn -> drop as Arc<dyn Tr>
     let a = Arc::new(v);
     check_sized(&a, 2);
-    let d: Arc<dyn Tr> = unsafe { Arc::from_raw(Arc::into_raw(a) as *const dyn Tr) };
-    assert!(d.heap_ptr() as usize == block_nr(2).addr);
-    drop(d);
+    // (not for payloads aligned above the count word: Kani 0.68 mis-places the payload of an ArcInner<dyn _> there)
+    if align_of::<T>() <= 8 {
+        let d: Arc<dyn Tr> = unsafe { Arc::from_raw(Arc::into_raw(a) as *const dyn Tr) };
+        assert!(d.heap_ptr() as usize == block_nr(2).addr);
+        drop(d);
+    } else {
+        drop(a);
+    }
     all_freed(3);
 }
 /// part B
@@ -99,11 +104,15 @@ fn sized_b<T: Copy + Tr + 'static>(v: T) {
     unsafe { (a.as_mut_ptr() as *mut T).write(v) };
     let a = unsafe { a.assume_init() };
     check_sized(&a, i + 2);
-    let d: Arc<dyn Tr> = unsize::CoerceUnsize::unsize(a, unsafe { unsize::Coercion::new({
-        fn c<'a, T: Tr + 'a>(p: *const T) -> *const (dyn Tr + 'a) { p }
-        c::<T>
-    }) });
-    drop(d);
+    if align_of::<T>() <= 8 {
+        let d: Arc<dyn Tr> = unsize::CoerceUnsize::unsize(a, unsafe { unsize::Coercion::new({
+            fn c<'a, T: Tr + 'a>(p: *const T) -> *const (dyn Tr + 'a) { p }
+            c::<T>
+        }) });
+        drop(d);
+    } else {
+        drop(a);
+    }
     all_freed(i + 3);
 }
 
@@ -185,7 +194,7 @@ fn hs_a<H: Copy + Pl, T: Copy + Pl, const N: usize>(h: H, vals: [T; N]) {
     assert!(a.header.sig() == h.sig() && (N == 0 || (a.slice[0].sig() == vals[0].sig() && a.slice[N - 1].sig() == vals[N - 1].sig())));
     drop(a);
     all_freed(1);
-    // iter -> thin -> clone -> drop thin, drop as fat
+    // iter -> thin -> clone -> drop thin (not last) -> fat -> thin clone -> drop fat (not last) -> drop thin (last)
     // (0..N).map(..) rather than vals.iter(): the length of an EMPTY slice iterator is pointer arithmetic on a
     // dangling pointer, which CBMC leaves symbolic - and a symbolic length means a symbolic-size allocation
     let a = Arc::from_header_and_iter(HeaderWithLength::new(h, N), (0..N).map(|i| vals[i]));
@@ -201,7 +210,13 @@ fn hs_a<H: Copy + Pl, T: Copy + Pl, const N: usize>(h: H, vals: [T; N]) {
     assert!(t.slice.len() == N && t.header.header.sig() == h.sig());
     drop(t);
     assert!(n_live() == 1);
-    drop(Arc::from_thin(t2));
+    // back to fat, one more thin clone; the fat handle goes first so that the LAST owner is a ThinArc: the block
+    // must then be released with the layout of the whole header+slice, not of the thin (length-less) view
+    let f = Arc::from_thin(t2);
+    let t3 = Arc::into_thin(f.clone());
+    drop(f);
+    assert!(n_live() == 1);
+    drop(t3);
     all_freed(2);
     // vec (capacity slack 1): the Vec's buffer is released with its own layout, the Arc's with its own
     let mut v = Vec::with_capacity(N + 1);
